@@ -19,8 +19,7 @@ The request / location / piece / error vocabulary is shared with `Model/Eval.lea
 can be compared by equality (`Eval.Request`, `Err`); values inside results are Spec values.
 
 **Outside the fragment.** `Out.panic "unspecified"` marks what this Spec deliberately does not
-define: the shifts (whose Model counterpart disagrees with any Spec on unmasked counts, finding
-C07-1) and floating point values (answers and base types). `eval_refines` is stated for runs of
+define: floating point values (answers and base types). `eval_refines` is stated for runs of
 the Spec machine that never reach such a point.
 -/
 namespace Gimli.Spec.Machine
@@ -142,7 +141,9 @@ def exec (c : SCfg) (op : Operation) (s : SState) : Out Effect :=
     if isFloat lhs.ty then unspecified else do
     let r ← binary c.a .add lhs ⟨lhs.ty, canon c.a lhs.ty value⟩
     pure (.continue (push r s))
-  | .shl | .shr | .shra => unspecified
+  | .shl => binop c .shl s
+  | .shr => binop c .shr s
+  | .shra => binop c .shra s
   -- control flow (§2.5.1.5)
   | .eq => binop c .eq s
   | .ge => binop c .ge s
